@@ -21,7 +21,7 @@ def MgOutcome (m : M) (r : Coll × Out × List Call) : Prop :=
   | .pol Option.none => m = .ok (.seq [.py .none, MgW r.1])
   | .pol (some p) => ∃ u, m = .ok (.seq [.polv u p true, MgW r.1])
   | .rejected => m = .error .raised
-  | .pols _ => False
+  | .pols l => m = .ok (.seq [.seq (l.map fun (x : Uid × Pol) => V.polv x.1 x.2 true), MgW r.1])
   | e => m = .ok (.mworld r.1 (some e))
 
 theorem gen_mongo_add (c : Coll) (self : V) (u : Uid) (p : Pol) (ok : Bool) :
@@ -48,6 +48,62 @@ theorem gen_mongo_get (c : Coll) (self : V) (u : Uid) :
   unfold get_MongoStorage MgW MgOutcome mongoStep
   cases hd : dictGet u c <;> simp [findOneM, hd, pairM, cNone, MgW, truth, truthy, fromDocM, bindM]
 
-theorem translatedMongo_covers : translatedMongo = ["add", "get", "update", "delete"] := by decide
+/-! ### the paged listing: the limit / offset check, the special case of limit 0, `find(limit, skip, sort by _id)`, the generator -/
+
+def feedBodyM : V → List V → (List V → M) → (List V → M) → M := fun l1_doc s1 k1 b1 =>
+      (bindM (appendM (pure (stGet s1 0)) (fromDocM (pure l1_doc))) fun v___y =>
+      (k1 [v___y]))
+
+theorem feedM_loop (docs : St) : ∀ (acc : List V) (k : List V → M),
+    loopS (docs.map fun (x : Uid × Pol) => V.mdoc x.1 x.2) feedBodyM [.seq acc] k =
+      k [.seq (acc ++ docs.map fun (x : Uid × Pol) => V.polv x.1 x.2 true)] := by
+  induction docs with
+  | nil => intro acc k; simp [loopS]
+  | cons x tail ih =>
+    intro acc k
+    simp only [List.map_cons, loopS, feedBodyM, stGet, List.getD_cons_zero, pure_ok, fromDocM, bindM_ok, appendM, ih,
+      List.append_assoc, List.singleton_append]
+
+theorem gen_mongo_feed (docs : St) :
+    feed_policies_MongoStorage (.mcursor docs) = .ok (.seq (docs.map fun (x : Uid × Pol) => V.polv x.1 x.2 true)) := by
+  have e : feed_policies_MongoStorage (.mcursor docs) =
+      loopS (docs.map fun (x : Uid × Pol) => V.mdoc x.1 x.2) feedBodyM [.seq []] (fun r1 => pure (stGet r1 0)) := rfl
+  rw [e, feedM_loop]
+  simp [stGet]
+
+theorem lt_intM (a b : Int) : cmpLt (.ok (.py (.int a))) (cInt b) = ofBool (Decidable.decide (a < b)) := by
+  simp only [cmpLt, cmp2, bindM, cInt, pyLt, pyCmp, asNum, numEq, numLt, liftR, Except.map, ofBool]
+  by_cases h1 : a = b
+  · subst h1; simp
+  · by_cases h2 : a < b
+    · simp [h1, h2]
+    · simp [h1, h2]
+
+theorem gen_mongo_check (c : Coll) (l o : Int) :
+    check_limit_and_offset_StorageM (.py (.int l)) (.py (.int o)) (MgW c) =
+      if checkLimitOffset l o then .ok (.mworld c (some .valueError)) else .ok (.seq [.py .none, MgW c]) := by
+  unfold check_limit_and_offset_StorageM MgW checkLimitOffset
+  simp only [pure_ok, lt_intM, ofBool_eq, iteM_ok, truth_bool, raiseMongoM, bindM_ok, pairM, cNone]
+  by_cases h1 : l < 0 <;> by_cases h2 : o < 0 <;> simp [h1, h2]
+
+theorem gen_mongo_get_all (c : Coll) (self : V) (l o : Int) :
+    MgOutcome (get_all_MongoStorage self (.py (.int l)) (.py (.int o)) (MgW c)) (mongoStep c (.getAll l o)) := by
+  unfold get_all_MongoStorage MgOutcome mongoStep mongoGetAll
+  simp only [pure_ok, bindM_ok, gen_mongo_check]
+  by_cases hc : checkLimitOffset l o = true
+  · simp [hc, callProcM]
+  · have hc' : checkLimitOffset l o = false := by simpa using hc
+    have hl : 0 ≤ l := by simp [checkLimitOffset] at hc'; omega
+    have ho : 0 ≤ o := by simp [checkLimitOffset] at hc'; omega
+    have hz : cmpEq (.ok (V.py (.int l))) (cInt 0) = ofBool (l == 0) := by
+      simp [cmpEq, cmp2, cInt, pyEq, asNum, numEq, ofBool]
+    by_cases h0 : l = 0
+    · subst h0
+      simp [hc', callProcM, hz, MgW, pairM, cEmptyList, truth, truthy]
+    · have h0' : (l == 0) = false := by simpa using h0
+      simp [hc', callProcM, hz, h0', MgW, findPageM, hl, ho, gen_mongo_feed, pairM, truth, truthy]
+
+theorem translatedMongo_covers : translatedMongo =
+    ["_check_limit_and_offset", "__feed_policies", "add", "get", "update", "delete", "get_all"] := by decide
 
 end Vakt.GenEquiv
